@@ -137,7 +137,7 @@ PROPS = {
     'C05': {
         'technique': 'Verus contracts on the extracted text of Mask::boundary_distances, Window accessors and MlpgMatrix::{ldl_factorization, substitutions, solve}; Kani harnesses on Mask::{create,fill} and MlpgAdjust::create (argument capture by stubbing calc_wuw_and_wum)',
         'level_text': 'unbounded proof of the boundary distances (voiced run lengths to the nearest unvoiced frame or edge) for any number of frames; unbounded proof (any length, any band width, IEEE ops uninterpreted) that ldl_factorization is the textbook in-place banded LDL\' recursion, that substitutions is forward then backward substitution over ALL width-1 off-diagonals, and that solve composes them leaving the right-hand side untouched, all panic-free on a well-formed matrix; bounded: frame -> state expansion, unvoiced frames carry NODATA, dynamic windows whose span touches an utterance edge or an unvoiced frame get zero precision (width-3 and width-5 windows)',
-        'level_note': 'PARTIAL: that calc_wuw_and_wum accumulates W\'U^-1W (custom window iterators: outside Verus) and that the LDL\' recursions solve the normal equations to rounding accuracy is NOT decided (real-number linear algebra; no float semantics in Verus, symbolic products intractable in CBMC); the solver contracts pin the recursions, not their numerical meaning',
+        'level_note': 'PARTIAL: that calc_wuw_and_wum accumulates the band of W\'U^-1W and W\'U^-1mu is checked bounded only (K-wuw: 4 frames, static + delta + delta-delta windows, exact dyadic values against the definition computed over the rationals, on the domain create() produces: zero precision on edge-truncated dynamic rows); that the LDL\' recursions solve the normal equations to rounding accuracy is NOT decided (real-number linear algebra; no float semantics in Verus, symbolic products intractable in CBMC); the solver contracts pin the recursions, not their numerical meaning',
         'verus': ['mask', 'window', 'mlpgsolve'],
         'assumptions': [], 'trusted_base': [],
         'not_decided': ['maximum-likelihood optimality: W\'U^-1W c = W\'U^-1 mu to rounding accuracy'],
